@@ -399,3 +399,6 @@ pub fn block_on<F: std::future::Future>(fut: F) -> F::Output {
         std::thread::yield_now();
     }
 }
+
+/// message of the last panic caught in a thread other than the harness's main thread (the actor)
+pub static LAST_PANIC: std::sync::Mutex<String> = std::sync::Mutex::new(String::new());
